@@ -129,7 +129,7 @@ Section Termination.
   Proof.
     unfold dir_if. destruct (find_dir dn ds); [|discriminate].
     destruct (find_arg_last s_if (d_args d)); [|discriminate].
-    destruct (a_val a); try discriminate. destruct (alookup (n_val n) vs); discriminate.
+    destruct (a_val a); try discriminate. destruct (alookup (n_val n) vs) as [[]|]; discriminate.
   Qed.
 
   Lemma skip_selection_not_oof ds : skip_selection ds vs <> OutOfFuel.
